@@ -217,6 +217,20 @@ def run(ctx):
                                                  expected=single[q], observed=g))
             break
     res.coverage_extra["order_independence_requests"] = len(seqs)
+    # ... nor of who else is rendering at the same moment: counts.Metric and counts.Binary are package-level values that any
+    # goroutine of a caller of the library may use; eight goroutines render the same values concurrently, forty rounds each
+    pool = [r for r in reqs[::max(1, len(reqs) // 600)]]
+    for s_ in ("metric", "binary"):
+        vals = [r[2] for r in pool if r[1] == s_][:300]
+        if not vals:
+            continue
+        got_par = vlib.batch(ctx["bins"]["api"], ["fmtpar %s 8 %s" % (s_, ",".join(map(str, vals)))])[0].split(",")
+        want_par = vlib.batch(ctx["modelrun"], ["fmt %s %d" % (s_, v) for v in vals])
+        res.case(("concurrent", s_, len(vals)), True)
+        bad = [(v, w, g) for v, w, g in zip(vals, want_par, got_par) if w != g]
+        if bad:
+            res.violations.append(vlib.Violation("FormatNumber returns another rendering when several goroutines use it at once", {"system": s_, "value": bad[0][0], "goroutines": 8},
+                                                 expected=bad[0][1], observed=bad[0][2]))
     # ... nor of the locale: the same numerals and the same table under any locale
     import scanprops as SP
     sample = [r[0] for r in reqs[::max(1, len(reqs) // 400)]] + treqs[:4]
